@@ -864,6 +864,17 @@ for _f in os.listdir(chk.work):
         except OSError:
             pass
 
+# ---- the same guarantees in a child interpreter started with `python -O` (assert statements compiled away): answers read-only,
+#      a caller's in-place operation refused and without effect on later answers
+import child_modes as _cm  # noqa: E402
+_src = os.environ.get("VERIF_ARIM_SRC") or "/repo/src"
+_res = _cm.run_child(_cm.C14_OPTIMIZED, _src, interpreter_args=("-O",), env_extra={"NUMBA_CACHE_DIR": os.environ.get("NUMBA_CACHE_DIR", "")} if os.environ.get("NUMBA_CACHE_DIR") else None)
+evaluations += 1
+chk.count(child_interpreter="python -O: " + _res.split(":")[0])
+if not _res.startswith("OK"):
+    chk.violation("python-O", "under `python -O` the answers of a cached RayGeometry are not protected: " + _res,
+                  {"program": "harness/child_modes.py C14_OPTIMIZED", "interpreter": "python -O", "outcome": _res}, failing_input_found=True)
+
 # ---- the glue model of the public functions (Model files added later, see manifest text) tied to the library on every run:
 #      inputs generated here, the library run on them, the model evaluated on the same inputs by vm_compute inside coqc
 import ties.tie_C14 as _tie_glue  # noqa: E402
